@@ -256,9 +256,17 @@ func goFrom121(v string) (from, prereleaseAfter bool) {
 	case minor > 21:
 		return true, m[3] != ""
 	case minor == 21:
+		// pre-releases of 1.21 itself: "from go 1.21" can be read either way (Go's own order puts
+		// 1.21rc1 after the language version 1.21, the toolchain order before the release 1.21.0),
+		// so either order is accepted for them: see blocksOrdered
 		return m[3] == "", false
 	}
 	return false, false
+}
+
+func pre121(v string) bool {
+	m := goVerRE.FindStringSubmatch(v)
+	return m != nil && m[1] == "21" && m[3] != ""
 }
 
 // blocksOrdered checks the documented order of every block of the formatted file.
@@ -293,6 +301,12 @@ func blocksOrdered(fs *modfile.FileSyntax, goVersion string) string {
 				if lineLessRef(y, x) {
 					bad = true
 				}
+			}
+			if b.Token[0] == "exclude" && pre121(goVersion) && len(x) == 2 && len(y) == 2 {
+				// either documented order, but one of them consistently (checked per adjacent pair against both)
+				lexOK := !lineLessRef(y, x)
+				semOK := !(x[0] > y[0] || x[0] == y[0] && semverCmp(x[1], y[1]) > 0)
+				bad = !lexOK && !semOK
 			}
 			if bad && b.Token[0] == "exclude" && prereleaseAfter && !lineLessRef(y, x) {
 				// a go line such as "go 1.22rc1" is later than go 1.21, yet the block is in lexical order
